@@ -1,293 +1,28 @@
 /-
 C02 — transforming a shape moves points and landmarks as one and mutates nothing.  Property theorems.
-Core Lean only.
 
-The property text, clause by clause:
-  (a) "returns a new object of the same class whose points are the transformed points"
-        value level `apply_class_preserved`, `apply_points`;  heap level `apply_refines` (fresh root object)
-  (b) "every attached landmark group has been moved by the same map"
-        `apply_landmarks` (every group at every depth), heap level `apply_refines`
-  (c) "connectivity, triangle lists, labels, colours, textures, texture coordinates carried over unchanged"
-        `apply_extra_unchanged`, `apply_group_names`; heap level `apply_refines` (array / immutable attributes)
-  (d) "neither the input shape, nor its landmarks, nor the transform is modified"
-        `apply_no_write` (the heap after the call is the heap before plus new cells), `apply_input_intact`
-  (e) "applying the transform to the bare coordinate array gives the same numbers"
-        `apply_array_agrees`
-All are stated over `expectedDispatch`; `GenProps/C02.lean` proves that the method-resolution table read
-from the live classes *is* `expectedDispatch`.
+  Props/C02Base.lean    value level (`applyV_expected`, class / points / landmarks at every depth / extras /
+                        array agreement / identity / composition) and the heap level over `Rep`
+                        (`apply_refines`, `apply_no_write`, `apply_input_intact`, `apply_result`, witnesses)
+  Props/C02Deep.lean    heap level over `RepD`: EVERY attribute of every object of the tree by deep digest
+                        (dicts, the tcoords PointCloud, the texture Image with its own landmarks …):
+                        `apply_refines_deep`, `apply_deep`, `apply_at_deep`, `apply_extras_deep`,
+                        `copy_keeps_digest`, `apply_manager_deep` (`transform.apply(landmark_manager)`)
+  Props/C02Seq.lean     the invariant over arbitrary sequences of calls on shared objects and earlier results
+                        (`run_refines`, `run_mutates_nothing`, `runV_expected`)
+  Props/C02Batch.lean   `apply(x, batch_size=k)`, `TransformChain`, `WithDims`, `Homogeneous._apply` on shapes
+                        (`chunks_spec`, `batched_rowwise`, `apply_batched_expected`, `apply_batch_invariant`,
+                        `apply_chain`, `chain_rowwise`, `withDims_*`, `apply_withDims_width`)
+  Props/C02Total.lean   total correctness on the heap: `inplace_total`, `copy_total`, `apply_succeeds`
+  Props/C02Writes.lean  the attributes the in-place pass rebinds, as a table read off the method-resolution table
+                        (`inplace_writes_in_table`; `GenProps/C02.lean` compares it with the writes measured on
+                        live objects on every run)
+All are stated over `expectedDispatch`; `GenProps/C02.lean` proves that the method-resolution table read from the
+live classes *is* `expectedDispatch`.
 -/
-import MenpoModel.Lemmas.C02Inplace
-import MenpoModel.Lemmas.C02CopySpec
-import MenpoModel.Lemmas.C02Check
-
-namespace MenpoModel.C02
-
-/-! ### value level -/
-
-theorem rowOf_shape (c : SCls) :
-    rowOf expectedDispatch (.shape c) =
-      some (shapeRow c (if c = .LabelledPointUndirectedGraph then .LabelledPointUndirectedGraph else .Copyable)) := by
-  cases c <;> rfl
-
-mutual
-theorem inplaceV_expected (f : Arr → Arr) : ∀ s, inplaceV expectedDispatch f s = .ok (mapShape f s)
-  | .mk c p l e => by
-    have hg := groupsInplaceV_expected f l
-    simp only [inplaceV, rowOf_shape, shapeRow, supInplace_lm, hg, mapShape]
-    cases l <;> simp [Groups.isNil, mapGroups]
-theorem groupsInplaceV_expected (f : Arr → Arr) : ∀ g, groupsInplaceV expectedDispatch f g = .ok (mapGroups f g)
-  | .nil => by simp only [groupsInplaceV, mapGroups]
-  | .cons n g r => by
-    simp only [groupsInplaceV, inplaceV_expected f g, groupsInplaceV_expected f r, mapGroups]
-end
-
-/-- PROPERTY (all of it, value level): with the methods the classes resolve today, `transform.apply(shape)`
-succeeds for each of the 8 shape classes and is the same tree with the transform's array function applied
-to the points of the shape and of every landmark group at every depth, everything else verbatim. -/
-theorem applyV_expected (f : Arr → Arr) (s : Shape) : applyV expectedDispatch f s = .ok (mapShape f s) := by
-  unfold applyV
-  rw [supTransform_shape]
-  by_cases hc : s.cls = .LabelledPointUndirectedGraph
-  · rw [hc, supCopy_lab]; exact inplaceV_expected f s
-  · rw [supCopy_nonlab hc]; exact inplaceV_expected f s
-
-theorem mapShape_cls (f : Arr → Arr) (s : Shape) : (mapShape f s).cls = s.cls := by
-  cases s; simp [mapShape, Shape.cls]
-theorem mapShape_points (f : Arr → Arr) (s : Shape) : (mapShape f s).points = f s.points := by
-  cases s; simp [mapShape, Shape.points]
-theorem mapShape_extra (f : Arr → Arr) (s : Shape) : (mapShape f s).extra = s.extra := by
-  cases s; simp [mapShape, Shape.extra]
-theorem mapShape_lms (f : Arr → Arr) (s : Shape) : (mapShape f s).lms = mapGroups f s.lms := by
-  cases s; simp [mapShape, Shape.lms]
-
-theorem mapGroups_names (f : Arr → Arr) : ∀ g : Groups, (mapGroups f g).names = g.names
-  | .nil => by simp [mapGroups, Groups.names]
-  | .cons n g r => by simp [mapGroups, Groups.names, mapGroups_names f r]
-
-theorem mapGroups_lookup (f : Arr → Arr) (x : String) :
-    ∀ g : Groups, (mapGroups f g).lookup x = (g.lookup x).map (mapShape f)
-  | .nil => by simp [mapGroups, Groups.lookup]
-  | .cons n g r => by
-    simp only [mapGroups, Groups.lookup]
-    split
-    · rfl
-    · exact mapGroups_lookup f x r
-
-theorem mapShape_at (f : Arr → Arr) : ∀ (path : List String) (s : Shape),
-    (mapShape f s).at path = (s.at path).map (mapShape f)
-  | [], s => by simp [Shape.at]
-  | n :: path, .mk c p l e => by
-    simp only [mapShape, Shape.at, mapGroups_lookup]
-    cases l.lookup n with
-    | none => rfl
-    | some g => exact mapShape_at f path g
-
-/-- (a) the result has the class of the input -/
-theorem apply_class_preserved (f : Arr → Arr) (s s' : Shape) (h : applyV expectedDispatch f s = .ok s') :
-    s'.cls = s.cls := by
-  rw [applyV_expected] at h; injection h with h; subst h; exact mapShape_cls f s
-
-/-- (a) its points are the transformed points -/
-theorem apply_points (f : Arr → Arr) (s s' : Shape) (h : applyV expectedDispatch f s = .ok s') :
-    s'.points = f s.points := by
-  rw [applyV_expected] at h; injection h with h; subst h; exact mapShape_points f s
-
-/-- (e) `transform.apply(shape).points` is `transform.apply(shape.points)` -/
-theorem apply_array_agrees (f : Arr → Arr) (s s' : Shape) (a' : Arr)
-    (h : applyAny expectedDispatch f (.shape s) = .ok (.shape s'))
-    (ha : applyAny expectedDispatch f (.array s.points) = .ok (.array a')) : s'.points = a' := by
-  simp only [applyAny, applyV_expected, Except.map, Except.ok.injEq, Arg.shape.injEq, Arg.array.injEq] at h ha
-  subst h; subst ha; exact mapShape_points f s
-
-/-- (c) every extra attribute of the shape is carried over verbatim -/
-theorem apply_extra_unchanged (f : Arr → Arr) (s s' : Shape) (h : applyV expectedDispatch f s = .ok s') :
-    s'.extra = s.extra := by
-  rw [applyV_expected] at h; injection h with h; subst h; exact mapShape_extra f s
-
-/-- (b, c) the landmark manager keeps its group names in order: no group is lost, added or renamed -/
-theorem apply_group_names (f : Arr → Arr) (s s' : Shape) (h : applyV expectedDispatch f s = .ok s') :
-    s'.lms.names = s.lms.names := by
-  rw [applyV_expected] at h; injection h with h; subst h
-  rw [mapShape_lms]; exact mapGroups_names f _
-
-/-- (b, c) every landmark group at every depth — `s.landmarks[n₁].landmarks[n₂]…` — exists in the result
-exactly when it exists in the input, has the same class, the same extras, the same sub-group names, and
-its points are moved by the *same* array function `f` -/
-theorem apply_landmarks (f : Arr → Arr) (s s' : Shape) (h : applyV expectedDispatch f s = .ok s')
-    (path : List String) :
-    (∀ g, s.at path = some g → ∃ g', s'.at path = some g' ∧ g'.cls = g.cls ∧ g'.points = f g.points ∧
-        g'.extra = g.extra ∧ g'.lms.names = g.lms.names) ∧
-    (s.at path = none → s'.at path = none) := by
-  rw [applyV_expected] at h; injection h with h; subst h
-  rw [mapShape_at]
-  constructor
-  · intro g hg
-    rw [hg]
-    exact ⟨mapShape f g, rfl, mapShape_cls f g, mapShape_points f g, mapShape_extra f g, by
-      rw [mapShape_lms]; exact mapGroups_names f _⟩
-  · intro hn; rw [hn]; rfl
-
-/- functoriality: the identity transform changes nothing … -/
-mutual
-theorem mapShape_id : ∀ s, mapShape id s = s
-  | .mk c p l e => by simp only [mapShape, id, mapGroups_id l]
-theorem mapGroups_id : ∀ g, mapGroups id g = g
-  | .nil => by simp only [mapGroups]
-  | .cons n g r => by simp only [mapGroups, mapShape_id g, mapGroups_id r]
-end
-
-/- … and applying `f` then `g` is applying `g ∘ f` (what a `TransformChain` does to a shape is what its
-members do one after the other) -/
-mutual
-theorem mapShape_comp (f g : Arr → Arr) : ∀ s, mapShape g (mapShape f s) = mapShape (g ∘ f) s
-  | .mk c p l e => by simp only [mapShape, Function.comp, mapGroups_comp f g l]
-theorem mapGroups_comp (f g : Arr → Arr) : ∀ l, mapGroups g (mapGroups f l) = mapGroups (g ∘ f) l
-  | .nil => by simp only [mapGroups]
-  | .cons n s r => by simp only [mapGroups, mapShape_comp f g s, mapGroups_comp f g r]
-end
-
-theorem apply_id (s : Shape) : applyV expectedDispatch id s = .ok s := by
-  rw [applyV_expected, mapShape_id]
-
-theorem apply_comp (f g : Arr → Arr) (s s1 s2 : Shape) (h1 : applyV expectedDispatch f s = .ok s1)
-    (h2 : applyV expectedDispatch g s1 = .ok s2) : applyV expectedDispatch (g ∘ f) s = .ok s2 := by
-  rw [applyV_expected] at h1 h2 ⊢
-  injection h1 with h1; injection h2 with h2
-  rw [← h2, ← h1, mapShape_comp]
-
-/-! ### heap level -/
-
-theorem ext_of_prefix {h h' : Heap} (hl : h.length ≤ h'.length) (hs : ∀ a, a < h.length → h'[a]? = h[a]?) :
-    Ext h h' := by
-  refine ⟨h'.drop h.length, ?_⟩
-  have : h'.take h.length = h := by
-    apply List.ext_getElem?
-    intro i
-    by_cases hi : i < h.length
-    · rw [List.getElem?_take_of_lt hi]; exact hs i hi
-    · rw [List.getElem?_eq_none (by simp; omega), List.getElem?_eq_none (by omega)]
-  conv => lhs; rw [← List.take_append_drop h.length h']
-  rw [this]
-
-/-- PROPERTY (a, b, c, d on the heap).  Let `v` hold a shape `s` on heap `h` — any of the 8 classes, any
-landmark groups to any depth, laid out and shared in any way — and let `transform.apply` return `v'` on
-heap `h'`.  Then
-  * `h'` is `h` plus newly allocated cells: **no cell that existed before the call was written**;
-  * `v'` holds `mapShape f s`: class kept, points and every group's points mapped by `f`, array and
-    immutable attributes with the same contents;
-  * every shape object of the result (root and groups) is a new cell (address ≥ `h.length`). -/
-theorem apply_refines (f : Arr → Arr) (k : Nat) (s : Shape) (h h' : Heap) (v v' : Val)
-    (r : Rep h s v) (hrun : applyH expectedDispatch f k h v = .ok (h', v')) :
-    Ext h h' ∧ RepIn h' (mapShape f s) h.length h'.length v' := by
-  cases s with
-  | mk c x gs ex =>
-    have r0 := r
-    unfold Rep at r0
-    obtain ⟨a, fs, p, rfl, ha, _⟩ := r0
-    simp only [applyH, ha, supTransform_shape] at hrun
-    have hc := copy_spec k _ h (.ref a) r
-    cases hcp : copy expectedDispatch k h (.ref a) with
-    | error e => rw [hcp] at hrun; cases hrun
-    | ok pr =>
-      obtain ⟨h1, v1⟩ := pr
-      rw [hcp] at hc hrun
-      simp only at hrun
-      obtain ⟨e1, r1⟩ := hc
-      cases hin : inplace expectedDispatch f k h1 v1 with
-      | error e => rw [hin] at hrun; cases hrun
-      | ok h2 =>
-        rw [hin] at hrun
-        simp only [Except.ok.injEq, Prod.mk.injEq] at hrun
-        obtain ⟨rfl, rfl⟩ := hrun
-        obtain ⟨fr, r2⟩ := inplace_spec f k _ h1 _ _ v1 h2 r1 hin
-        have hpre : ∀ b, b < h.length → h2[b]? = h[b]? := fun b hb => by
-          rcases fr.same b (Nat.lt_of_lt_of_le hb e1.len) with e | ⟨l1, _, _⟩
-          · rw [e]; exact e1.get_lt hb
-          · omega
-        exact ⟨ext_of_prefix (Nat.le_trans e1.len fr.len) hpre,
-          RepIn.widen _ v1 (Nat.le_refl _) fr.len r2⟩
-
-/-- (d) "mutates nothing": every cell that existed before the call — the input shape, its landmark
-manager, its groups, their arrays, the transform, anything else — is identical after it -/
-theorem apply_no_write (f : Arr → Arr) (k : Nat) (s : Shape) (h h' : Heap) (v v' : Val)
-    (r : Rep h s v) (hrun : applyH expectedDispatch f k h v = .ok (h', v')) :
-    h.length ≤ h'.length ∧ ∀ a, a < h.length → h'[a]? = h[a]? := by
-  obtain ⟨e, _⟩ := apply_refines f k s h h' v v' r hrun
-  exact ⟨e.len, fun a ha => e.get_lt ha⟩
-
-/-- (d) the input still holds the shape it held -/
-theorem apply_input_intact (f : Arr → Arr) (k : Nat) (s : Shape) (h h' : Heap) (v v' : Val)
-    (r : Rep h s v) (hrun : applyH expectedDispatch f k h v = .ok (h', v')) : Rep h' s v :=
-  Rep.ext (apply_refines f k s h h' v v' r hrun).1 s v r
-
-/-- (a) the result is a new object, and it holds the mapped shape (so `apply` can be applied again) -/
-theorem apply_result (f : Arr → Arr) (k : Nat) (s : Shape) (h h' : Heap) (v v' : Val)
-    (r : Rep h s v) (hrun : applyH expectedDispatch f k h v = .ok (h', v')) :
-    (∃ a', v' = .ref a' ∧ h.length ≤ a') ∧ Rep h' (mapShape f s) v' := by
-  obtain ⟨_, r2⟩ := apply_refines f k s h h' v v' r hrun
-  refine ⟨?_, RepIn.rep _ _ _ _ r2⟩
-  cases s with
-  | mk c x gs ex =>
-    rw [mapShape_mk, repIn_iff] at r2
-    obtain ⟨a, _, _, m0, m, hv, q1, q2, q3, _⟩ := r2
-    exact ⟨a, hv, by omega⟩
-
-/-- the same with the executable test of the hypothesis (what the driver evaluates on every case) -/
-theorem apply_refines_checked (f : Arr → Arr) (k : Nat) (s : Shape) (h h' : Heap) (v v' : Val)
-    (r : repB h s v = true) (hrun : applyH expectedDispatch f k h v = .ok (h', v')) :
-    Ext h h' ∧ RepIn h' (mapShape f s) h.length h'.length v' :=
-  apply_refines f k s h h' v v' (repB_sound s v r) hrun
-
-/-! ### the hypotheses are satisfiable, the conclusions are not trivial -/
-
-/-- a labelled graph with a mask dict and an adjacency array -/
-def exLab : Shape := .mk .LabelledPointUndirectedGraph [[1, 2], [3, 4]] .nil
-  [("_labels_to_masks", .dict [("eye", [[1], [0]])]), ("adjacency_matrix", .arr [[0, 1, 1]])]
-/-- a mesh with two landmark groups, the second of which has a landmark group of its own -/
-def exMesh : Shape := .mk .TriMesh [[0, 0], [1, 0], [0, 1]]
-  (.cons "a" exLab (.cons "b" (.mk .PointCloud [[5, 5]] (.cons "n" exLab .nil) []) .nil))
-  [("trilist", .arr [[0, 1, 2]])]
-/-- a transform that is not the identity on these arrays -/
-def exF : Arr → Arr := List.reverse
-def exHeap : Heap := (build [] exMesh).1
-def exVal : Val := (build [] exMesh).2
-
--- the hypothesis of the heap theorems holds of a 19-cell heap with nested groups …
-example : Rep exHeap exMesh exVal := repB_sound _ _ (by decide)
--- … the call succeeds on it …
-example : (applyH expectedDispatch exF 8 exHeap exVal).toOption.isSome = true := by decide
--- … writes nothing below the old heap top, and the result reads back as the mapped shape: root points
--- reversed, the nested group's points reversed, its adjacency array and mask dict untouched
-example : (applyH expectedDispatch exF 8 exHeap exVal).toOption.map
-    (fun r => changedBelow exHeap.length exHeap r.1) = some [] := by decide
-example : (applyH expectedDispatch exF 8 exHeap exVal).toOption.bind
-    (fun r => (readShape 8 r.1 r.2).map fun s =>
-      (s.points, (s.at ["b", "n"]).map fun g => (g.points, g.extra == exLab.extra))) =
-    some ([[0, 1], [1, 0], [0, 0]], some ([[3, 4], [1, 2]], true)) := by decide
-example : applyV expectedDispatch exF exMesh = .ok (mapShape exF exMesh) := applyV_expected _ _
-example : (mapShape exF exMesh).points ≠ exMesh.points := by decide
-
-/-- the method-resolution table with `LandmarkManager.copy` *not* overriding `Copyable.copy` -/
-def shallowManagerDispatch : Dispatch :=
-  expectedDispatch.map fun r => if r.cls = .LandmarkManager then { r with copy := .Copyable } else r
-
-/-- WITNESS that the table matters: were `LandmarkManager.copy` the generic `Copyable.copy` (the group dict
-copied shallowly), the very same call would succeed and rebind `points` of the *caller's* landmark groups:
-cells 4, 13 and 9 (groups "a", "b" and the group "n" of "b" of the input) are written.  This is why `GenProps/C02.lean` re-proves the
-table of the live classes on every run. -/
-theorem shallow_manager_copy_mutates_input :
-    (applyH shallowManagerDispatch exF 8 exHeap exVal).toOption.map
-      (fun r => changedBelow exHeap.length exHeap r.1) = some [4, 9, 13] := by decide
-
-/-- the table with `_transform_self_inplace` resolving to `Shape`'s `pass` for `PointTree` -/
-def passSelfDispatch : Dispatch :=
-  expectedDispatch.map fun r => if r.cls = .shape .PointTree then { r with tSelf := .Shape } else r
-
-/-- WITNESS: a shape class that does not inherit `PointCloud._transform_self_inplace` keeps its points (its
-landmarks still move) — `apply_points` is a statement about the table, not a tautology -/
-theorem pass_self_leaves_points :
-    (applyV passSelfDispatch exF (.mk .PointTree [[1, 1], [2, 2]] (.cons "g" exLab .nil) [])).toOption.map
-      (fun s => (s.points, (s.at ["g"]).map Shape.points)) =
-    some ([[1, 1], [2, 2]], some [[3, 4], [1, 2]]) := by decide
-
-end MenpoModel.C02
+import MenpoModel.Props.C02Base
+import MenpoModel.Props.C02Deep
+import MenpoModel.Props.C02Seq
+import MenpoModel.Props.C02Batch
+import MenpoModel.Props.C02Writes
+import MenpoModel.Props.C02Total
